@@ -67,8 +67,10 @@ static int orc_x86_microarchitecture;
  * it instead of from the hardware.  Format, nine hex words separated by ':'
  *   vendor(ecx of leaf 0):max basic leaf:leaf1 ecx:leaf1 edx:leaf7 ebx:
  *   max extended leaf:leaf 0x80000001 ecx:leaf 0x80000001 edx:xcr0
- * Leaves above the respective maximum answer zeros. */
+ * Leaves above the respective maximum answer zeros; the brand string leaves
+ * (0x80000002..4) answer from ORC_VERIF_CPUID_BRAND. */
 #include <signal.h>
+#include <string.h>
 #include <stdio.h>
 #include <stdlib.h>
 static int
@@ -103,6 +105,16 @@ orc_verif_cpuid (orc_uint32 op, orc_uint32 init_ecx, orc_uint32 *a,
   } else if (op == 0x80000001 && w[5] >= 0x80000001) {
     *c = w[6];
     *d = w[7];
+  } else if (op >= 0x80000002 && op <= 0x80000004 && w[5] >= op) {
+    /* processor brand string, from ORC_VERIF_CPUID_BRAND (zeros if unset) */
+    const char *brand = getenv ("ORC_VERIF_CPUID_BRAND");
+    char buf[48];
+    memset (buf, 0, sizeof (buf));
+    if (brand) strncpy (buf, brand, sizeof (buf) - 1);
+    memcpy (a, buf + (op - 0x80000002) * 16, 4);
+    memcpy (b, buf + (op - 0x80000002) * 16 + 4, 4);
+    memcpy (c, buf + (op - 0x80000002) * 16 + 8, 4);
+    memcpy (d, buf + (op - 0x80000002) * 16 + 12, 4);
   }
   return 1;
 }
